@@ -512,6 +512,9 @@ pub fn run_property(engine: &'static dyn Engine, tier: Tier) -> i32 {
         println!("KNOWN-FINDING: property={id} {what} (seen in {count} runs)");
     }
     new_sigs.sort_by_key(|x| x.1);
+    for (sig, idx, _v, count) in &new_sigs {
+        println!("signature-summary: {sig} runs={count} first_index={idx}");
+    }
     let mut violation_lines = 0;
     let mut replay_records = Vec::new();
     if !new_sigs.is_empty() {
